@@ -8,14 +8,15 @@ ID = 'C17'
 LEVEL = 'proof'
 RULE = ('corpus; structured random 2-D images with even sides 2..64 (square and not, biased to small sizes and powers of '
         'two) x float32/float64/integer dtypes x seven layouts x preserve_energy on/off x inline on/off x all ten '
-        'Daubechies codes x borders {ncoeffs, ncoeffs+1, ncoeffs+5} (and smaller ones for the model comparison only); '
+        'Daubechies codes x borders {ncoeffs-3, ncoeffs-2, ncoeffs, ncoeffs+1, ncoeffs+5} (and smaller ones); '
         'round trips, energy, D2 = Haar, linearity with integer weights, input untouched. Non-trivial = the image is '
         'not constant zero; distinct = distinct case.')
 ASSUMPTIONS = [
     'finite values, |f| <= 1e6; even sides (the statement names them); sizes < 2^31',
-    'Daubechies reconstruction is asserted when the image is embedded with wavelet_center(border >= ncoeffs, cval=0): '
-    'the kernels read zeros outside [0,N), so coefficients of negative index are lost for signals closer than ncoeffs '
-    'to the low end (theorem hypothesis, see Properties/C17.lean); with smaller borders only the model is compared',
+    'Daubechies reconstruction is asserted when the offsets at which wavelet_center embeds the image are >= ncoeffs - 2 '
+    '(wavelet_center(border >= ncoeffs - 3) guarantees it): the hypothesis of theorem C17_reconstruction_centered, forced '
+    'by the code (zeros outside [0,N): analysis coefficients of negative index do not exist; truncating xmap2/2). '
+    'It is sharp on the real code. With smaller offsets only the model is compared',
     'tolerances: Haar on integer-valued input is exact; float64 round trip / linearity 1e-12*max|f| for Haar, '
     'Daubechies reconstruction 1e-5*max|f| (float32 coefficient tables; 5e-5 for float32 images); '
     'model comparison 1e-12*scale for float64 and integer images, 1e-4*scale for float32 images (the kernels then '
@@ -100,7 +101,9 @@ def _run(case):
         back = mh.wavelet_decenter(fc, A.shape, border=border)
         if back.shape != A.shape or not np.array_equal(np.asarray(back, np.float64), A.astype(np.float64)):
             f.append(dict(kind='property', key='decenter-center', detail=dict(shape=list(back.shape))))
-        req.append((f"c17 kind=center shape={gen.enc_shape(A.shape)} border={border}", list(fc.shape), None, 'center'))
+        center_req = [f"c17 kind=center shape={gen.enc_shape(A.shape)} border={border}",
+                      dict(shape=list(fc.shape)), None, 'center']
+        req.append(center_req)
         fc0 = fc.copy()
         w = mh.daubechies(fc, code, inline=inline)
         if not inline:
@@ -116,12 +119,10 @@ def _run(case):
             f.append(dict(kind='property', key='input-modified:idaubechies', detail={}))
         req.append((_line('idaubechies', w0, code=ci), np.array(r), _mtol(dt, w0) * 8, f'idaubechies'))
         rd = mh.wavelet_decenter(r, A.shape, border=border)
-        if border >= nco:
-            tol = (5e-5 if dt == 'float32' else 1e-5) * scale
-            err = float(np.abs(np.asarray(rd, np.float64) - A.astype(np.float64)).max())
-            if not err <= tol:
-                f.append(dict(kind='property', key=f'daubechies-reconstruction:{code}',
-                              detail=dict(err=err, tol=tol, border=border)))
+        # judged in evaluate(): asserted when the offsets of the embedding (from the model) are >= ncoeffs - 2,
+        # the margin of theorem C17_reconstruction_centered
+        center_req[1].update(err=float(np.abs(np.asarray(rd, np.float64) - A.astype(np.float64)).max()),
+                             tol=(5e-5 if dt == 'float32' else 1e-5) * scale, nco=nco, code=code, border=border)
     elif k == 'lin':
         name = case['name']
         B = _arr(case, 'data2')
@@ -177,10 +178,16 @@ def evaluate(cases):
                 raise core.Infra('driver: ' + str(d))
             if key == 'center':
                 want = core.ints(d['nshape']) if d['nshape'] != 'none' else None
-                if want != got:
-                    f.append(dict(kind='model', key='center-shape', detail=dict(got=got, model=want)))
-                elif want is not None and any(n & (n - 1) for n in got):
-                    f.append(dict(kind='property', key='center-not-power-of-two', detail=dict(got=got)))
+                if want != got['shape']:
+                    f.append(dict(kind='model', key='center-shape', detail=dict(got=got['shape'], model=want)))
+                elif want is not None and any(n & (n - 1) for n in got['shape']):
+                    f.append(dict(kind='property', key='center-not-power-of-two', detail=dict(got=got['shape'])))
+                elif want is not None and 'err' in got:
+                    delta = core.ints(d['delta'])
+                    c['_margin'] = bool(min(delta) >= got['nco'] - 2)
+                    if c['_margin'] and not got['err'] <= got['tol']:
+                        f.append(dict(kind='property', key=f"daubechies-reconstruction:{got['code']}",
+                                      detail=dict(err=got['err'], tol=got['tol'], border=got['border'], delta=delta)))
                 continue
             model = core.floats(d['model'])
             g = np.asarray(got, np.float64).ravel(order='C')
@@ -198,7 +205,7 @@ def evaluate(cases):
             tags.update(pe=c['pe'], inline=c.get('inline', False))
         elif c['kind'] == 'daub':
             tags.update(code=c['code'], inline=c.get('inline', False),
-                        border=('>=ncoeffs' if c['border'] >= 2 * (CODES.index(c['code']) + 1) else '<ncoeffs'))
+                        margin=('>=ncoeffs-2 (reconstruction asserted)' if c.pop('_margin', False) else '<ncoeffs-2 (model only)'))
         else:
             tags.update(name=c['name'], code=c.get('code'))
         res.append(dict(findings=f, nontrivial=nontrivial, sig=json.dumps(c, sort_keys=True), tags=tags))
@@ -270,7 +277,8 @@ def cases(rng, tier):
             shape = [_side(rng, cap), _side(rng, cap)]
             code = rng.choice(CODES)
             nco = 2 * (CODES.index(code) + 1)
-            border = nco + rng.choice([0, 0, 1, 5]) if rng.random() < 0.8 else rng.randint(0, max(0, nco - 1))
+            border = rng.choice([nco - 3, nco - 3, nco - 2, nco, nco + 1, nco + 5]) if rng.random() < 0.8 else rng.randint(0, max(0, nco - 1))
+            border = max(0, border)
             inline = rng.random() < 0.4
             c = dict(kind='daub', dtype=dtype, shape=shape, data=_values(rng, shape[0] * shape[1], dtype),
                      code=code, border=border, inline=inline, layout=layout)
